@@ -10,8 +10,18 @@
 namespace vf {
 using TermEnv = std::map<std::string, long double>;
 
-inline long double evalTerm(const json& t, const TermEnv& env = {}) {
-    if (t["t"] == "q") return static_cast<long double>(t["n"].get<long>()) / static_cast<long double>(t["d"].get<long>());
+// Optional independent relative perturbation of every rational leaf (to tell results that sit on a discontinuity or an
+// exact cancellation of the reference expression from results that are simply wrong).
+struct Perturb { long double eps = 0.0L; unsigned leaf = 0; };
+
+inline long double evalTerm(const json& t, const TermEnv& env = {}, Perturb* pert = nullptr);
+
+inline long double evalTermRaw(const json& t, const TermEnv& env, Perturb* pert) {
+    if (t["t"] == "q") {
+        long double v = static_cast<long double>(t["n"].get<long>()) / static_cast<long double>(t["d"].get<long>());
+        if (pert) { const unsigned k = pert->leaf++; const long double h = (static_cast<long double>((k * 2654435761u) % 1000u) / 1000.0L) - 0.5L; v = v * (1.0L + pert->eps * h) + pert->eps * 1.0e-3L * h; }
+        return v;
+    }
     if (t["t"] == "v") {
         const auto it = env.find(t["name"].get<std::string>());
         if (it == env.end()) throw std::runtime_error("unbound variable " + t["name"].get<std::string>());
@@ -19,7 +29,7 @@ inline long double evalTerm(const json& t, const TermEnv& env = {}) {
     }
     const std::string f = t["f"];
     const auto& a = t["a"];
-    auto A = [&](int i) { return evalTerm(a[i], env); };
+    auto A = [&](int i) { return evalTerm(a[i], env, pert); };
     if (f == "+") return A(0) + A(1);
     if (f == "-") return A(0) - A(1);
     if (f == "*") return A(0) * A(1);
@@ -44,5 +54,16 @@ inline long double evalTerm(const json& t, const TermEnv& env = {}) {
     if (f == "min") return std::min(A(0), A(1));
     if (f == "twopi") return 6.283185307179586476925286766559005768394L;
     throw std::runtime_error("unknown function in term: " + f);
+}
+
+// with a perturbation active every intermediate result also moves by a tiny absolute amount, so that an argument that is
+// exactly zero (after an exact cancellation) does not hide a branch cut or a kink behind it
+inline long double evalTerm(const json& t, const TermEnv& env, Perturb* pert) {
+    const long double v = evalTermRaw(t, env, pert);
+    if (pert && t["t"] == "f") {
+        const unsigned k = pert->leaf++;
+        return v + pert->eps * 1.0e-3L * ((static_cast<long double>((k * 2246822519u) % 1000u) / 1000.0L) - 0.5L);
+    }
+    return v;
 }
 } // namespace vf
